@@ -325,7 +325,11 @@ def run_full(rng, cases, dims, repeats, model):
                 extra['cnl_nests'] = NestsForCrossNestedLogit(choice_set=ids, tuple_of_nests=tuple(
                     OneNestForCrossNestedLogit(nest_param=Beta(f'mu{q}', mu, 1, None, 1), dict_of_alpha=dict(a), name=f'n{q}')
                     for q, (a, mu) in enumerate(nests_ref)))
-            ctx = make_context(case, tmp, **extra)
+            try:
+                ctx = make_context(case, tmp, **extra)
+            except Exception as e:
+                out.append({'case': c, 'context': describe(case), 'bad': [{'clause': 'valid-context-accepted', 'detail': f'{type(e).__name__}: {e}'[:300]}]})
+                continue
             ref = reference_ll(case, model, nests_ref)
             for rep in range(repeats):
                 np.random.seed(int(rng.integers(2 ** 31 - 1)))
